@@ -3,6 +3,9 @@ import Qryn.Proofs.PromDecoder
 import Qryn.Proofs.BatcherLocks
 import Qryn.Gen.Inserts
 import Qryn.Gen.BatcherLocks
+import Qryn.Proofs.HandoffCompose
+import Qryn.Gen.ChunkReset
+import Qryn.Gen.RequestCopy
 /-! # C02 — every INSERT block is rectangular and made only of whole submitted rows
 
 Property theorems only. Model: `Qryn.Ingest.Batcher` with concrete columns. Each `ProcessRequest` closure of
@@ -99,6 +102,161 @@ def assertedTypeFor (field : String) : Option PType := do
 theorem wiring_typed :
     Gen.Inserts.pairings.map (·.1) = ["TimeSeriesRequest", "SamplesRequest", "SpansAttrsRequest", "SpansRequest", "ProfileRequest"] ∧
     ∀ f ∈ Gen.Inserts.pairings.map (·.1), assertedTypeFor f = Gen.Inserts.fieldTypes.lookup f ∧ (assertedTypeFor f).isSome = true := by
+  decide
+
+/-! ## The hand-off: from the parser's chunk buffers to `svc.Request(obj)`
+
+`block_is_concat` speaks of the payload `R id` a `Request` call *receives*. In Go that payload is a pointer
+the parser goroutine made, sent over the response channel, and `doPush` submits it later — after the parser
+has moved on to the next chunk — and again after every failed INSERT. `Ingest.Handoff` models this with an
+explicit heap (request objects hold slice headers into backing arrays); the theorems below close the gap
+between "the rows of a chunk as parsed" and "the rows a submission appends". -/
+
+/-- **chunk_reset_fresh** (regenerated from `shared.go` / `builder.go`). For each of the five request types,
+    the reset that follows a flush makes a NEW object (`&model.T{…}`) and every per-row array of it is
+    fresh (`make`, `nil`, left out): nothing of the object just handed off is reachable from the parser. -/
+theorem chunk_reset_fresh (pt : PType) : (Gen.ChunkReset.cfgOf pt).disciplined = true := by
+  cases pt <;> decide
+
+/-- every place that sends request objects either resets all of them right afterwards or closes the
+    channel (nothing is parsed any more); and there is such a place -/
+theorem flush_then_reset :
+    Gen.ChunkReset.flushSites.all Handoff.FlushSite.ok = true ∧ Gen.ChunkReset.flushSites ≠ [] := by decide
+
+/-- what the model's object holds is what the code writes and what the services read: every write through
+    a current-chunk pointer is an `append` to / assignment of one of the regenerated per-row fields of that
+    type, or `Size` accounting; every field a `ProcessRequest` plan reads is one of those fields -/
+theorem chunk_fields_cover :
+    (Gen.ChunkReset.writes.all (fun w =>
+      w.2.2.2 == "size" ||
+      ((w.2.2.2 == "append" || w.2.2.2 == "assign") &&
+        [Gen.ChunkReset.timeSeriesData, Gen.ChunkReset.timeSamplesData, Gen.ChunkReset.tempoSamples,
+         Gen.ChunkReset.tempoTag, Gen.ChunkReset.profileData].any (fun c => (c.fields.map (·.1)).contains w.2.2.1))) = true) ∧
+    ∀ k : Kind, ((Gen.Inserts.planOf k).steps.all (fun st =>
+      ((Gen.ChunkReset.cfgOf (Gen.Inserts.planOf k).ptype).fields.map (·.1)).contains
+        (match st with | .arr _ f => f | .zip _ f _ => f | .one _ f => f)) = true) := by
+  refine ⟨by decide, fun k => by cases k <;> decide⟩
+
+/-- **request_copies** (regenerated from `genericInsertService.go`, `colAdaptors.go`, `helper.go`).
+    `InsertServiceV2.Request` uses `req` for `GetSize()` and for ONE synchronous `processRequest(req, columns)`
+    call under the lock and nowhere else; the round-robin and multimodal wrappers only pass it on; every
+    adaptor that receives request data appends element by element or by `append(col, arr...)` — so after
+    `Request` returns the service holds copies, no reference into the request's arrays (the ch-go `Append`
+    methods themselves are trusted base). -/
+theorem request_copies :
+    Gen.RequestCopy.requestUses.lookup "InsertServiceV2" = some ["getSize", "process"] ∧
+    (Gen.RequestCopy.requestUses.all (fun u => u.1 == "InsertServiceV2" || u.2.all (· == "forward")) = true) ∧
+    (Gen.RequestCopy.adaptors.all (fun a => ["spread", "rangeAppend", "fieldAppend"].contains a.2) = true) := by decide
+
+/-- **handoff_frozen.** If every reset allocates a new object with fresh arrays, then for every schedule —
+    any interleaving of parser appends (in place or re-allocating), flushes, resets, `doPush` submissions,
+    promise results and retries, any number of chunks — every object that was handed off reads, in the
+    state reached, exactly as the rows it held when it was sent. (So a `Request` whose reads of the arrays
+    are spread over several steps sees the same rows as an atomic one.) -/
+theorem handoff_frozen (cfg : Handoff.Cfg) (hd : cfg.disciplined = true) (attempts : Nat) (ops : List Handoff.HOp) :
+    ∀ c ∈ (Handoff.run cfg attempts ops).chunks,
+      Handoff.readRows (Handoff.run cfg attempts ops).heap ((Handoff.run cfg attempts ops).objs c.obj) = c.rows :=
+  Handoff.frozen hd attempts ops
+
+/-- **handoff_immutable.** Under the same discipline, for every schedule, every `svc.Request(obj)` call —
+    first attempt or retry, however late — hands the service exactly the rows of its chunk as parsed. -/
+theorem handoff_immutable (cfg : Handoff.Cfg) (hd : cfg.disciplined = true) (attempts : Nat) (ops : List Handoff.HOp) :
+    ∀ sub ∈ (Handoff.run cfg attempts ops).subs,
+      (∃ c, (Handoff.run cfg attempts ops).chunks[sub.chunk]? = some c) ∧
+      sub.read = (Handoff.run cfg attempts ops).chunkOf sub :=
+  Handoff.immutable hd attempts ops
+
+/-- the same for the code as it is now (the regenerated reset facts) -/
+theorem handoff_immutable_gen (pt : PType) (attempts : Nat) (ops : List Handoff.HOp) :
+    ∀ sub ∈ (Handoff.run (Gen.ChunkReset.cfgOf pt) attempts ops).subs,
+      sub.read = (Handoff.run (Gen.ChunkReset.cfgOf pt) attempts ops).chunkOf sub :=
+  fun sub h => (Handoff.immutable (chunk_reset_fresh pt) attempts ops sub h).2
+
+/-- **handoff_block_is_concat** — `block_is_concat` from the parsed chunks on. For every service, every
+    hand-off schedule `hops` of the parser/doPush side (with the regenerated reset behaviour) whose chunks
+    are rectangular as parsed (C03 `chunks_rectangular`; one append per column per span), and every
+    schedule `ops` of the insert service whose `Request` calls are submissions made in `hops` (any order,
+    any sub-service): every block handed to `client.Do` is, column by column, the concatenation in promise
+    order of the rows AS PARSED of the chunks whose submissions it resolves. -/
+theorem handoff_block_is_concat (k : Kind) (attempts : Nat) (hops : List Handoff.HOp)
+    (hrect : ∀ c ∈ (Handoff.run (Gen.ChunkReset.cfgOf (Gen.Inserts.planOf k).ptype) attempts hops).chunks,
+      ∀ id, GoodReq (Gen.Inserts.planOf k) (Handoff.reqOfRows (Gen.Inserts.planOf k).ptype id c.rows))
+    (maxQueue svcNum : Nat) (ops : List SysOp)
+    (hreq : ∀ op ∈ ops, match op with
+      | .request _ _ r => ∃ sub ∈ (Handoff.run (Gen.ChunkReset.cfgOf (Gen.Inserts.planOf k).ptype) attempts hops).subs,
+          r = sub.req (Gen.Inserts.planOf k).ptype
+      | _ => True) :
+    ∀ b w o, Event.insert b w o ∈ ((Multi.init (Gen.Inserts.planOf k) maxQueue svcNum).run ops).2 →
+      BlockIsConcat (Gen.Inserts.planOf k)
+        ((Handoff.run (Gen.ChunkReset.cfgOf (Gen.Inserts.planOf k).ptype) attempts hops).parsedReq (Gen.Inserts.planOf k).ptype) b w :=
+  Handoff.compose (plans_ok k) (chunk_reset_fresh _) attempts hops hrect maxQueue svcNum ops hreq
+
+/-- a reset that re-slices the previous chunk's arrays (`old.F[:0]`) for four of the six sample fields, as an
+    "allocation optimisation" would -/
+def resliceCfg : Handoff.Cfg :=
+  { obj := .newObj
+    fields := [("MFingerprint", .reslice), ("MTimestampNS", .reslice), ("MMessage", .reslice), ("MValue", .reslice),
+               ("MTTLDays", .fresh), ("MType", .fresh)] }
+
+def appendRow (ts fp ty v m : Cell) : List Handoff.HOp :=
+  [.append "MMessage" [m] false, .append "MValue" [v] false, .append "MTimestampNS" [ts] false,
+   .append "MFingerprint" [fp] false, .append "MTTLDays" [0] false, .append "MType" [ty] false]
+
+/-- two chunks (rows A, B | row C); chunk 2 is submitted at once, chunk 1 only after chunk 2 was parsed -/
+def lateSubmission : List Handoff.HOp :=
+  appendRow 10 11 12 13 14 ++ appendRow 20 21 22 23 24 ++ [.flush, .reset] ++ appendRow 30 31 32 33 34 ++
+  [.flush, .reset, .submit 1, .submit 0]
+
+/-- **handoff_reslice_counterexample.** With the re-slicing reset the late submission of chunk 1 does not
+    append the rows of chunk 1: its first row has timestamp/fingerprint/string/value of row C and the type
+    of row A. -/
+theorem handoff_reslice_counterexample :
+    ¬ ∀ sub ∈ (Handoff.run resliceCfg 2 lateSubmission).subs,
+        sub.read = (Handoff.run resliceCfg 2 lateSubmission).chunkOf sub := by decide
+
+/-- … and the samples block built from those two submissions holds a row that was never submitted
+    (`type 12` of row A with `fingerprint 31, timestamp_ns 30, string 34, value 33` of row C), row C twice,
+    row A nowhere -/
+theorem handoff_reslice_block_counterexample :
+    ((Multi.init samplesPlan 0 1).run
+        (((Handoff.run resliceCfg 2 lateSubmission).subs.map (fun sub => SysOp.request .sync 0 (sub.req .timeSamplesData))) ++
+         [.planFlush, .sub 0 (.connect true), .sub 0 .swap, .sub 0 (.doResult .ok)])).2
+      = [.insert [("type", [32, 12, 22]), ("fingerprint", [31, 31, 21]), ("timestamp_ns", [30, 30, 20]),
+                  ("string", [34, 34, 24]), ("value", [33, 33, 23])] [0, 1] .ok, .resolved 0 .ok, .resolved 1 .ok] := by
+  decide
+
+/-- the same schedule with the code's reset: chunk 1 arrives as parsed -/
+example :
+    ((Handoff.run (Gen.ChunkReset.cfgOf .timeSamplesData) 2 lateSubmission).subs.map (fun s => (s.chunk, s.read))) =
+      [(1, [("MFingerprint", [31]), ("MTimestampNS", [30]), ("MMessage", [34]), ("MValue", [33]), ("MTTLDays", [0]), ("MType", [32])]),
+       (0, [("MFingerprint", [11, 21]), ("MTimestampNS", [10, 20]), ("MMessage", [14, 24]), ("MValue", [13, 23]),
+            ("MTTLDays", [0, 0]), ("MType", [12, 22])])] := by decide
+
+/-- refilling the object that was handed off in place (fresh arrays, same object) loses chunk 1 entirely for
+    a retry after the reset: the slice headers the pending request reads are the next chunk's -/
+theorem handoff_sameobj_counterexample :
+    ¬ ∀ sub ∈ (Handoff.run { obj := .sameObj, fields := [("MTraceId", .fresh)] } 2
+                 [.append "MTraceId" [1, 2] false, .flush, .reset, .append "MTraceId" [3] true, .submit 0]).subs,
+        sub.read = (Handoff.run { obj := .sameObj, fields := [("MTraceId", .fresh)] } 2
+                 [.append "MTraceId" [1, 2] false, .flush, .reset, .append "MTraceId" [3] true, .submit 0]).chunkOf sub := by
+  decide
+
+/-- non-vacuity of `handoff_block_is_concat`'s hypotheses: a failed first attempt, chunk 2 parsed meanwhile,
+    then the retry — the retried chunk 1 and chunk 2 in one block, concatenated as parsed -/
+example :
+    let s := Handoff.run (Gen.ChunkReset.cfgOf .timeSamplesData) 2
+      (appendRow 10 11 12 13 14 ++ [.flush, .reset, .submit 0] ++ appendRow 30 31 32 33 34 ++
+       [.result 0 false, .flush, .reset, .submit 1, .submit 0])
+    (s.subs.map (·.chunk) = [0, 1, 0]) ∧
+    ((Multi.init samplesPlan 0 1).run
+        ([.request .sync 0 ((s.subs.getD 0 ⟨0, 0, []⟩).req .timeSamplesData), .planFlush, .sub 0 (.connect true), .sub 0 .swap,
+          .sub 0 (.doResult .err), .request .sync 0 ((s.subs.getD 1 ⟨0, 0, []⟩).req .timeSamplesData),
+          .request .sync 0 ((s.subs.getD 2 ⟨0, 0, []⟩).req .timeSamplesData), .planFlush, .sub 0 (.connect true),
+          .sub 0 .swap, .sub 0 (.doResult .ok)])).2
+      = [.insert [("type", [12]), ("fingerprint", [11]), ("timestamp_ns", [10]), ("string", [14]), ("value", [13])] [0] .err,
+         .resolved 0 .err,
+         .insert [("type", [32, 12]), ("fingerprint", [31, 11]), ("timestamp_ns", [30, 10]), ("string", [34, 14]),
+                  ("value", [33, 13])] [1, 2] .ok, .resolved 1 .ok, .resolved 2 .ok] := by
   decide
 
 /-- **parser_rect (Prometheus remote write).** Whatever the series, the flush limit and the carried-over
